@@ -77,6 +77,19 @@ Res(a) == CASE a = "cP" -> "cP" [] a = "cU" -> "cU" [] a = "pR" -> "cR" [] a = "
 
 EmptyBody == "0:da39a3ee5e6b4b0d3255"      \* the driver's digest (length:sha1 prefix) of no bytes
 StatTotal == <<123, 1230>>          \* sum over the three harness peers
+\* cluster = "real3": three REAL Cluster peers (real RPC server and authorization policy, connected libp2p hosts);
+\* the proxy talks to p1; every peer's IPFS connector is scripted with its own numbers <<RepoSize, StorageMax>>
+RealPeers == {"p1", "p2", "p3"}
+RealStat(p) == CASE p = "p1" -> <<7, 70>> [] p = "p2" -> <<500, 9000>> [] p = "p3" -> <<30000, 100000>>
+RealTotal(F) == LET H == RealPeers \ F
+                    Sz(p) == IF p \in H THEN RealStat(p)[1] ELSE 0
+                    Mx(p) == IF p \in H THEN RealStat(p)[2] ELSE 0 IN
+                <<Sz("p1") + Sz("p2") + Sz("p3"), Mx("p1") + Mx("p2") + Mx("p3")>>
+FailSet(req) == IF req.peerfail = NA THEN {} ELSE {req.peerfail}
+\* The IPFS daemon behind the proxy: "up", "slow" (answers after 3x the proxy's client-side timeouts),
+\* "down" (connection refused), "reset" (accepts and resets the connection)
+DaemonModes == {"up", "slow", "down", "reset"}
+Reachable(req) == req.daemon \in {"up", "slow"}
 GCKeys    == {"g1", "g2", "g3"}       \* harness RepoGC result: peer A collected g1, g2, peer B g3, peer C nothing
 \* which keys the harness cluster reports as failed ("err-<key>"), every position: none, one, two, all
 GCErrs    == {NA, "1", "2", "3", "12", "13", "23", "123"}
@@ -94,7 +107,8 @@ Hangups    == {"headers", "entry"}
 Blank == [world |-> "w0", method |-> "POST", pathk |-> "route", route |-> NA, style |-> NA, arg |-> NA, arg2 |-> NA,
           type |-> NA, unpin |-> NA, body |-> NA, onlyhash |-> NA, pin |-> NA, layout |-> NA,
           trickle |-> NA, chunker |-> NA, cidv |-> NA, raw |-> NA, name |-> NA, repl |-> NA,
-          streamerr |-> NA, qk |-> NA, bk |-> NA, enc |-> NA, fault |-> NA, hangup |-> NA, gcerr |-> NA]
+          streamerr |-> NA, qk |-> NA, bk |-> NA, enc |-> NA, fault |-> NA, hangup |-> NA, gcerr |-> NA,
+          daemon |-> "up", cluster |-> NA, peerfail |-> NA]
 \* enc: how the fixed part of a pinning endpoint's path is spelled on the wire: "-" plain, "letter" = one or
 \* more letters percent-encoded (/api/v0/pin/%61dd), "slash" = one or more separating slashes as %2F
 \* (/api/v0/pin%2Frm, /api/v0/pin/add%2F<cid>), "both".  The request is the same request: pathk = "route"
@@ -153,7 +167,24 @@ OtherWorlds ==
 EncodedSpellings ==
     {[r EXCEPT !.enc = e] : e \in Encodings,
         r \in {x \in HijackShaped : (x.route = "add" => x \in AddLiteReqs) /\ x.type # "bogus" /\ x.gcerr \in {NA, "2"}}}
-Requests == HijackShaped \cup OtherWorlds \cup EncodedSpellings \cup FaultAndHangup \cup PassReqs(PassKinds)
+\* daemon unreachable: every pinning endpoint (reduced options) and three pass-through classes
+DaemonBase ==
+    {x \in HijackShaped : /\ x.method \in {"POST", "GET", "OPTIONS", "HEAD"}
+                          /\ (x.route = "add" => x \in AddLiteReqs /\ x.chunker = NA)
+                          /\ x.type \in {NA, "direct"} /\ x.gcerr \in {NA, "2"} /\ x.unpin = NA} \cup
+    PassReqs({"api-other", "nm-suffix", "root"})
+DaemonDownReqs == {[r EXCEPT !.daemon = d] : d \in {"down", "reset"}, r \in DaemonBase}
+DaemonSlowReqs ==
+    {[Blank EXCEPT !.daemon = "slow", !.method = m, !.pathk = k, !.qk = q, !.bk = b] :
+        m \in {"POST", "GET", "HEAD"}, k \in {"api-other", "nm-trailing"}, q \in {"none", "arglike"}, b \in {"none", "text"}} \cup
+    {[Blank EXCEPT !.daemon = "slow", !.route = "pin/ls", !.style = "query", !.arg = "none"],
+     [Blank EXCEPT !.daemon = "slow", !.route = "pin/add", !.style = "query", !.arg = "cU"],
+     [Blank EXCEPT !.daemon = "slow", !.route = "repo/stat"]}
+RealClusterReqs ==
+    {[Blank EXCEPT !.world = "w1", !.method = m, !.route = "repo/stat", !.cluster = "real3", !.peerfail = f] :
+        m \in {"POST", "GET", "PUT"}, f \in {NA, "p2", "p3"}}
+Requests == HijackShaped \cup OtherWorlds \cup EncodedSpellings \cup FaultAndHangup \cup PassReqs(PassKinds) \cup
+            DaemonDownReqs \cup DaemonSlowReqs \cup RealClusterReqs
 \* Paths that are not in canonical form ("//", "/./", "/../"): kept apart, see KNOWN finding.
 UncleanRequests == PassReqs({"unclean"})
 
@@ -244,8 +275,12 @@ ExpAdd(req, P) ==
          ELSE OkWith(<<opA, opP>>, Put(P, rec), <<"root">>, {}, <<>>)
 
 ExpRepoStat(req, P) ==
-    LET s == Op0("IPFS.RepoStat", NA, TRUE) IN
-    OkWith(<<Op0("Consensus.Peers", NA, TRUE), s, s, s>>, P, <<>>, {}, StatTotal)
+    LET s == Op0("IPFS.RepoStat", NA, TRUE)
+        f == Op0("IPFS.RepoStat", NA, FALSE) IN
+    \* real cluster: only the connectors' calls are visible (ok ones listed first); a failing peer is logged and skipped
+    IF req.cluster = "real3"
+    THEN OkWith(IF req.peerfail = NA THEN <<s, s, s>> ELSE <<s, s, f>>, P, <<>>, {}, RealTotal(FailSet(req)))
+    ELSE OkWith(<<Op0("Consensus.Peers", NA, TRUE), s, s, s>>, P, <<>>, {}, StatTotal)
 
 \* repoGCHandler: one entry per collected key; a key's error travels in its own entry when stream-errors=true,
 \* otherwise all of them are joined into the X-Stream-Error trailer
@@ -278,14 +313,21 @@ ObsOf(r, P) ==
         dresp == [status |-> 200, body |-> "d", hdrs |-> "dh"] IN
     IF Hijacked(r) THEN
         LET e == Exp(r, P) IN
-        [ps0 |-> SetToSeq(P), self |-> TRUE, err |-> e.err, status |-> e.status, ops |-> e.ops, ps |-> SetToSeq(e.ps),
+        [dropped |-> FALSE, ps0 |-> SetToSeq(P), self |-> TRUE, err |-> e.err, status |-> e.status, ops |-> e.ops, ps |-> SetToSeq(e.ps),
          pins |-> e.pins, keys |-> SetToSeq(e.keys), stat |-> e.stat, addp |-> <<AddP(r)>>, nblocks |-> 1,
          gc |-> SetToSeq(e.gc), tkeys |-> SetToSeq(e.tkeys),
-         dcalls |-> <<[method |-> "OPTIONS", uri |-> "u", body |-> EmptyBody, hdrs |-> "", pclass |-> r.route]>>,
+         dcalls |-> IF Reachable(r)
+                    THEN <<[method |-> "OPTIONS", uri |-> "u", body |-> EmptyBody, hdrs |-> "", pclass |-> r.route]>>
+                    ELSE <<>>,
          sent |-> sent, resp |-> [status |-> e.status, body |-> "p", hdrs |-> "ph"],
          dresp |-> [status |-> 0, body |-> "", hdrs |-> ""]]
+    ELSE IF ~Reachable(r) THEN       \* ReverseProxy's error handler: 502 Bad Gateway
+        [dropped |-> FALSE, ps0 |-> SetToSeq(P), self |-> TRUE, err |-> TRUE, status |-> 502, ops |-> <<>>, ps |-> SetToSeq(P),
+         pins |-> <<>>, keys |-> <<>>, stat |-> <<>>, addp |-> <<>>, nblocks |-> 0, gc |-> <<>>, tkeys |-> <<>>,
+         dcalls |-> <<>>, sent |-> sent, resp |-> [status |-> 502, body |-> EmptyBody, hdrs |-> ""],
+         dresp |-> [status |-> 0, body |-> "", hdrs |-> ""]]
     ELSE
-        [ps0 |-> SetToSeq(P), self |-> FALSE, err |-> FALSE, status |-> 200, ops |-> <<>>, ps |-> SetToSeq(P),
+        [dropped |-> FALSE, ps0 |-> SetToSeq(P), self |-> FALSE, err |-> FALSE, status |-> 200, ops |-> <<>>, ps |-> SetToSeq(P),
          pins |-> <<>>, keys |-> <<>>, stat |-> <<>>, addp |-> <<>>, nblocks |-> 0, gc |-> <<>>, tkeys |-> <<>>,
          dcalls |-> <<[method |-> r.method, uri |-> "u", body |-> "b", hdrs |-> "h", pclass |-> "other"]>>,
          sent |-> sent, resp |-> dresp, dresp |-> dresp]
@@ -313,11 +355,21 @@ Relayed(req, obs) ==
     /\ obs.ops = <<>>
     /\ Range(obs.ps) = Before(obs)
 
+\* The daemon cannot be reached: a relayed request is answered with a proper 5xx (never a dropped connection),
+\* nothing reaches the daemon as a request and the cluster is not touched.
+RelayDown(req, obs) ==
+    /\ ~obs.dropped
+    /\ obs.status >= 500 /\ obs.status <= 599
+    /\ obs.dcalls = <<>>
+    /\ obs.ops = <<>>
+    /\ Range(obs.ps) = Before(obs)
+
 (***************************************************************************)
 (* Conforms: the recorded tuple is what the transcription predicts.        *)
 (***************************************************************************)
 \* setHeaders: one OPTIONS pre-flight to the same path, at most one POST to ExtractHeadersPath
 DCallsCoded(req, obs) ==
+    IF ~Reachable(req) THEN obs.dcalls = <<>> ELSE      \* the pre-flight fails, the handler goes on (best effort)
     /\ \A i \in DOMAIN obs.dcalls :
         \/ obs.dcalls[i].method = "OPTIONS" /\ obs.dcalls[i].pclass = req.route /\ obs.dcalls[i].body = EmptyBody
         \/ obs.dcalls[i].method = "POST" /\ obs.dcalls[i].pclass = "extract" /\ obs.dcalls[i].body = EmptyBody
@@ -343,7 +395,11 @@ ConformsHij(req, obs) ==
     /\ AddSucceeds(req, Before(obs)) /\ req.hangup = NA => AddP(req) \in Range(obs.addp)
     /\ DCallsCoded(req, obs)
 
-Conforms(req, obs) == IF Hijacked(req) THEN ConformsHij(req, obs) ELSE Relayed(req, obs)
+Conforms(req, obs) ==
+    /\ ~obs.dropped
+    /\ IF Hijacked(req) THEN ConformsHij(req, obs)
+       ELSE IF Reachable(req) THEN Relayed(req, obs)
+       ELSE RelayDown(req, obs) /\ obs.status = 502
 
 (***************************************************************************)
 (* The property statement                                                  *)
@@ -353,7 +409,14 @@ MustHijack(req) == HijackPath(req) /\ req.method = "POST"      \* the IPFS API v
 MustRelay(req)  == ~HijackPath(req)
 
 \* HijackExact: pinning endpoints are answered by the proxy, everything else by the daemon
-HijackExact(req, obs) == (MustRelay(req) => ~obs.self) /\ (MustHijack(req) => obs.self)
+\* (with the daemon unreachable nothing carries the daemon's mark; a relay then shows as RelayDown)
+HijackExact(req, obs) ==
+    IF Reachable(req) THEN (MustRelay(req) => ~obs.self) /\ (MustHijack(req) => obs.self)
+    ELSE MustRelay(req) => RelayDown(req, obs)
+\* the hijack predicates apply: the proxy answered itself
+\* (daemon unreachable: always for the API verb, otherwise unless the answer is that of a failed relay)
+ByProxy(req, obs) ==
+    IF Reachable(req) THEN obs.self ELSE HijackPath(req) /\ (MustHijack(req) \/ ~RelayDown(req, obs))
 
 \* NeverLeaks: the daemon never sees the call that the proxy replaces
 NeverLeaks(req, obs) ==
@@ -450,7 +513,14 @@ FaithfulAdd(req, obs) ==
     ELSE IF req.fault # NA THEN obs.err \/ AddDone(req, obs)   \* (ErrorMeansNoOp says the rest)
     ELSE AddDone(req, obs)
 
-FaithfulRepoStat(req, obs) == ~obs.err /\ (Shows(req) => obs.stat = StatTotal) /\ Unchanged(obs)
+\* the numbers are the sum over ALL peers' daemons.  When a peer's daemon fails the statement does not say how
+\* that shows: an error answer or the sum over the healthy peers are both accepted (the code logs and skips).
+FaithfulRepoStat(req, obs) ==
+    /\ Unchanged(obs)
+    /\ IF req.cluster = "real3"
+       THEN IF req.peerfail = NA THEN ~obs.err /\ (Shows(req) => obs.stat = RealTotal({}))
+            ELSE obs.err \/ (Shows(req) => obs.stat = RealTotal(FailSet(req)))
+       ELSE ~obs.err /\ (Shows(req) => obs.stat = StatTotal)
 \* the answer is the cluster's result, key by key: every collected key exactly once, an entry carries its own
 \* key's error or none (never another key's), every failure is reported (in its entry or in the trailer), and no
 \* failure is reported for a key that was collected fine
@@ -475,12 +545,14 @@ Faithful(req, obs) ==
       [] req.route = "repo/gc"    -> FaithfulRepoGC(req, obs)
 
 \* verdict classes (disjoint reasons; Good = none of them)
-BadExact(req, obs)    == ~HijackExact(req, obs)
-BadRelay(req, obs)    == ~obs.self /\ ~Relayed(req, obs)
-BadLeak(req, obs)     == obs.self /\ HijackPath(req) /\ ~NeverLeaks(req, obs)
-BadErrNoOp(req, obs)  == obs.self /\ HijackPath(req) /\ ~ErrorMeansNoOp(req, obs)
-BadFaithful(req, obs) == obs.self /\ HijackPath(req) /\ ~Faithful(req, obs)
+\* AnswersAlways: every request gets an HTTP answer (the connection is never just dropped), whatever the daemon does
+BadDrop(req, obs)     == obs.dropped
+BadExact(req, obs)    == ~obs.dropped /\ ~HijackExact(req, obs)
+BadRelay(req, obs)    == ~obs.dropped /\ Reachable(req) /\ ~obs.self /\ ~Relayed(req, obs)
+BadLeak(req, obs)     == ~obs.dropped /\ ByProxy(req, obs) /\ HijackPath(req) /\ ~NeverLeaks(req, obs)
+BadErrNoOp(req, obs)  == ~obs.dropped /\ ByProxy(req, obs) /\ HijackPath(req) /\ ~ErrorMeansNoOp(req, obs)
+BadFaithful(req, obs) == ~obs.dropped /\ ByProxy(req, obs) /\ HijackPath(req) /\ ~Faithful(req, obs)
 
 Good(req, obs) ==
-    ~(BadExact(req, obs) \/ BadRelay(req, obs) \/ BadLeak(req, obs) \/ BadErrNoOp(req, obs) \/ BadFaithful(req, obs))
+    ~(BadDrop(req, obs) \/ BadExact(req, obs) \/ BadRelay(req, obs) \/ BadLeak(req, obs) \/ BadErrNoOp(req, obs) \/ BadFaithful(req, obs))
 =============================================================================
